@@ -67,12 +67,14 @@ func VerifUnifiedHistory() {
 					if gosym.Param("DIGESTS") == 1 {
 						// what a backend may put in a listing: no digest, short digests, the same name again
 						// with another digest (C20: a listing must never crash the catalogue)
-						if d := []string{"", "ab12", "cd34", "sha256:0123456789abcdef"}[gosym.Choice("digest", 4)]; d != "" {
-							dd := d
+						// digests are content hashes: different models never share one (the unifier merges
+						// entries with equal digests by design), so each carries the model's index
+						if d := []string{"", "ab1", "cd3", "sha256:0123456789abcde"}[gosym.Choice("digest", 4)]; d != "" {
+							dd := d + string(rune('0'+k))
 							mi.Details = &domain.ModelDetails{Digest: &dd}
 						}
 						if gosym.Choice("listed_twice", 2) == 1 {
-							d2 := "ef56"
+							d2 := "ef5" + string(rune('0'+k))
 							list = append(list, &domain.ModelInfo{Name: m, Details: &domain.ModelDetails{Digest: &d2}})
 						}
 					}
